@@ -22,7 +22,8 @@ impl Parsable for Glue {
                         super::dimen::scan_and_apply_units(
                             input,
                             first_token,
-                            i.abs(),
+                            // saturating: i32::MIN has no absolute value
+                            i.saturating_abs(),
                             Scaled::ZERO,
                             None,
                         )? * negative
